@@ -41,6 +41,7 @@ func init() {
 	rt.Register("C06_basename", VerifHarness_C06_basename)
 	rt.Register("C06_layouts", VerifHarness_C06_layouts)
 	rt.Register("C06_volume_names", VerifHarness_C06_volume_names)
+	rt.Register("C06_high_exponents", VerifHarness_C06_high_exponents)
 }
 
 type c06File struct {
@@ -208,6 +209,29 @@ func VerifHarness_C06_layouts() {
 		lo, hi = hi, lo
 	}
 	det := rt.GFMul(lo[0], hi[1]) ^ rt.GFMul(lo[1], hi[0])
+	if det != 0 {
+		rt.Assert(rerr == nil, "Repair uses the blocks and restores the file")
+		rt.Reach("repaired")
+	}
+}
+
+// Exponents near the top of the 16-bit range (plain packet order): the powers
+// c_i^e are computed exactly, also where log(c_i) * e exceeds 16 bits.
+func VerifHarness_C06_high_exponents() {
+	files := []c06File{{"f0", []byte{1, 2, 3, 4, 5}}}
+	exps := [][]int{{40000, 1}, {2, 65534}, {32768, 32769}}[rt.Choice("exponents", 3)]
+	s := c06Scenario(files, exps, []string{"s.vol0+1.par2"}, false)
+	res, err := verify(s.fs, scnIndex, VerifyOptions{NumGoroutines: 1})
+	rt.Assert(err == nil, "Verify reads the conformant set")
+	if err == nil {
+		rt.Assert(res.ShardCounts.UsableParityShardCount == 2, "every intact recovery block is found, whatever its exponent")
+	}
+	_, rerr := checkRepair(s, false, 1)
+	lo, hi := exps[0], exps[1]
+	if lo > hi {
+		lo, hi = hi, lo
+	}
+	det := rt.GFMul(refPowC(refConstant(0), lo), refPowC(refConstant(1), hi)) ^ rt.GFMul(refPowC(refConstant(1), lo), refPowC(refConstant(0), hi))
 	if det != 0 {
 		rt.Assert(rerr == nil, "Repair uses the blocks and restores the file")
 		rt.Reach("repaired")
